@@ -79,8 +79,9 @@ func (s c12Script) String() string {
 // {NO, TLS}, {NO}); 4 Origin-State-Id, Supported-Vendor-Ids, Firmware-Revision; 5 further
 // applications the client does not know next to the shared one; 6 applications first,
 // Result-Code last; 7 a second (IPv6) Host-IP-Address and undefined AVPs; 8 the shared
-// application is the accounting one; 9 it is inside a Vendor-Specific-Application-Id.
-const nC12Dress = 10
+// application is the accounting one; 9 it is inside a Vendor-Specific-Application-Id; 10, 11 that
+// group also names an application nobody knows, after / before the shared one.
+const nC12Dress = 12
 
 func successCEA(dress int, hbh, e2e uint32) []byte {
 	rc := peer.U32(peer.ResultCode, 2001)
@@ -110,6 +111,10 @@ func successCEA(dress int, hbh, e2e uint32) []byte {
 		avps = append(avps, peer.U32(peer.AcctApp, 3))
 	case 9:
 		avps = append(avps, peer.U32(peer.SupportedVnd, 10415), peer.Group(peer.VSApp, peer.U32(peer.VendorID, 10415), peer.U32(peer.AuthApp, 16777251)))
+	case 10: // a Vendor-Specific-Application-Id with both kinds of id: the shared one first, then one nobody knows
+		avps = append(avps, peer.U32(peer.SupportedVnd, 10415), peer.Group(peer.VSApp, peer.U32(peer.VendorID, 10415), peer.U32(peer.AuthApp, 16777251), peer.U32(peer.AcctApp, 999999)))
+	case 11: // ... the other way round
+		avps = append(avps, peer.U32(peer.SupportedVnd, 10415), peer.Group(peer.VSApp, peer.U32(peer.AcctApp, 999999), peer.U32(peer.AuthApp, 16777251), peer.U32(peer.VendorID, 10415)))
 	default:
 		avps = append(avps, app)
 	}
@@ -366,6 +371,75 @@ func runC12(c *ev.Case, ctx *lib.Ctx, sc c12Script) {
 	c.Event("scripts", 1)
 	if c.WantSample() && len(sc.extras) > 0 {
 		c.Sample(map[string]any{"script": desc, "cer_transmissions": len(cerWrites), "cer": ev.Hex(cer)})
+	}
+}
+
+// runC12WhileRegistering: the application registers handlers on the state machine (for other
+// commands) from another goroutine while the client dials; the peer answers the CER at once
+// with a success CEA.  The dial succeeds and answers reach the application afterwards.
+func runC12WhileRegistering(c *ev.Case, ctx *lib.Ctx, trials int) {
+	sig := func(op string) ev.Sig { return ev.Sig{"op": op, "suite": "dial-while-registering"} }
+	for trial := 0; trial < trials; trial++ {
+		settings := &sm.Settings{OriginHost: "cli.local", OriginRealm: "realm.local", VendorID: 13, ProductName: "verif",
+			HostIPAddresses: []datatype.Address{datatype.Address(net.IP{192, 0, 2, 9})}}
+		machine := sm.New(settings)
+		var mu sync.Mutex
+		answers := 0
+		machine.HandleFunc("CCA", func(_ diam.Conn, m *diam.Message) {
+			mu.Lock()
+			answers++
+			mu.Unlock()
+		})
+		cli := &sm.Client{Dict: ctx.Parser, Handler: machine, MaxRetransmits: 1, RetransmitInterval: time.Second,
+			AuthApplicationID: []*diam.AVP{diam.NewAVP(258, 0x40, 0, datatype.Unsigned32(4))}}
+		mc := memnet.NewConn()
+		mc.OnWrite = func(w memnet.WriteRec) {
+			msgs, _ := peer.SplitMessages(w.Data)
+			if len(msgs) == 1 {
+				if h := peer.Header(msgs[0]); h.Code == 257 && h.Flags&0x80 != 0 {
+					mc.Feed(peer.StdCEA(h.HopByHop, h.EndToEnd, 2001, 4))
+				}
+			}
+		}
+		start := make(chan struct{})
+		regDone := make(chan struct{})
+		go func() {
+			defer close(regDone)
+			<-start
+			nop := func(diam.Conn, *diam.Message) {}
+			for i := 0; i < 1500; i++ {
+				if i%2 == 0 {
+					machine.HandleFunc(fmt.Sprintf("X%dR", i%40), nop)
+				} else {
+					machine.HandleIdx(diam.CommandIndex{AppID: 4, Code: uint32(5000 + i%40), Request: true}, diam.HandlerFunc(nop))
+				}
+			}
+		}()
+		close(start)
+		conn, err := cli.NewConn(mc, "peer:3868")
+		<-regDone
+		synctest.Wait()
+		if err != nil || conn == nil {
+			c.Fail(sig("outcome"), nil, nil, "the peer answered the CER at once with a success CEA sharing application 4, handlers for other commands were being registered on the state machine from another goroutine meanwhile: dial returned conn=%v err=%v (trial %d)", conn != nil, err, trial)
+			mc.FeedEOF()
+			synctest.Wait()
+			return
+		}
+		mc.Feed(peer.Msg(0x40, 272, 4, 9, 9, peer.Str(peer.SessionID, refcodec.UTF8String, "s;1"), peer.U32(peer.ResultCode, 2001)))
+		synctest.Wait()
+		mu.Lock()
+		a := answers
+		mu.Unlock()
+		if a != 1 {
+			c.Fail(sig("answer-not-dispatched"), nil, nil, "after a dial that overlapped handler registrations the application answer reached its handler %d times (trial %d)", a, trial)
+		}
+		mc.FeedEOF()
+		conn.Close()
+		synctest.Wait()
+		if c.Failed() {
+			return
+		}
+		c.Event("successful_handshakes", 1)
 	}
 }
 
@@ -666,7 +740,7 @@ func TestC12(t *testing.T) {
 		c.Class("N=%d/at=%d/reply=%s/extras=%d/late=%v", sc.N, sc.atCER, rNames[sc.reply], len(sc.extras), sc.late > 0)
 		if sc.reply == rSuccess {
 			sc.dress = (c.I + c.I/nC12Dress) % nC12Dress
-			if (sc.dress == 8 && sc.apps < 2) || (sc.dress == 9 && sc.apps < 3) {
+			if (sc.dress == 8 && sc.apps < 2) || (sc.dress >= 9 && sc.apps < 3) {
 				sc.dress = 1 + c.I%7
 			}
 			c.Class("success-cea-shape=%d", sc.dress)
@@ -685,6 +759,13 @@ func TestC12(t *testing.T) {
 		entry := c.I % 10
 		c.Class("dial-entry/%d", entry)
 		runC12Entry(c, ctx, entry)
+	})
+	rec.Suite("dial-while-registering", rec.N(24, 2000), func(c *ev.Case) {
+		c.Class("dial-while-registering")
+		leak := runBubbleWD(t, rec, c, 60*time.Second, func() { runC12WhileRegistering(c, ctx, 8) })
+		if leak != "" && !c.Failed() {
+			c.Fail(ev.Sig{"op": "bubble-leak", "suite": "dial-while-registering"}, nil, nil, "goroutines left blocked after the scenario: %s", leak)
+		}
 	})
 	rec.Suite("second-dial", 2*4*rec.N(2, 200), func(c *ev.Case) {
 		answers := c.I%2 == 0
